@@ -856,6 +856,94 @@ def native_wrappers():
     return None
 
 
+def native_consumers():
+    """Round 7 (the consumers of the guard under deductive contracts: ZipContext, zip_utils readers, the ODF probe).  Every
+    zipfile.ZipFile constructed during a call is recorded; checked natively: (a) is_odf_encrypted leaves no container open on any
+    exit (no manifest / plain manifest / malformed manifest / bomb member); (b) ZipContext(...) keeps exactly one open container on
+    success, none on failure (bomb member -> ExtractionZipBombError), its handle is closed by close(); (c) no member is read from a
+    container holding a bomb member (the read methods are wrapped)."""
+    import zipfile
+    from sharepoint2text.parsing.exceptions import ExtractionZipBombError
+    from sharepoint2text.parsing.extractors.util import encryption, zip_context
+    made, reads = [], []
+    real_init, real_read, real_open = zipfile.ZipFile.__init__, zipfile.ZipFile.read, zipfile.ZipFile.open
+
+    def init(self, *a, **k):
+        real_init(self, *a, **k)
+        made.append(self)
+
+    def read(self, name, *a, **k):
+        reads.append(("read", name))
+        return real_read(self, name, *a, **k)
+
+    def open_(self, name, *a, **k):
+        reads.append(("open", getattr(name, "filename", name)))
+        return real_open(self, name, *a, **k)
+
+    plain = b'<?xml version="1.0"?><manifest:manifest xmlns:manifest="urn:oasis:names:tc:opendocument:xmlns:manifest:1.0"/>'
+    docs = {
+        "no manifest": _zip_bytes([("content.xml", b"<a/>")]),
+        "plain manifest": _zip_bytes([("META-INF/manifest.xml", plain), ("content.xml", b"<a/>")]),
+        "malformed manifest": _zip_bytes([("META-INF/manifest.xml", b"<a"), ("content.xml", b"<a/>")]),
+    }
+    bombs = {k + " + bomb member": _with_bomb_member(v) for k, v in docs.items()}
+    zipfile.ZipFile.__init__, zipfile.ZipFile.read, zipfile.ZipFile.open = init, read, open_
+    try:
+        for label, data in list(docs.items()) + list(bombs.items()):
+            bomb = label in bombs
+            # (a) the ODF probe
+            del made[:], reads[:]
+            try:
+                out = ("returned", encryption.is_odf_encrypted(io.BytesIO(data)))
+            except Exception as e:  # noqa
+                out = ("raised", type(e).__name__)
+            left = [z for z in made if z.fp is not None]
+            bad = None
+            if left:
+                bad = f"{len(left)} container(s) left open"
+            elif bomb and (out != ("raised", "ExtractionZipBombError") or reads):
+                bad = f"bomb member: {out}, member accesses {reads}"
+            if bad:
+                return {"target": "sharepoint2text/parsing/extractors/util/encryption.py::is_odf_encrypted",
+                        "inputs": {"document": label, "size": len(data)}, "expected": "no container left open; a bomb member is answered by "
+                        "ExtractionZipBombError before any member access", "observed": bad}
+            # (b) the context class
+            del made[:], reads[:]
+            ctx = None
+            try:
+                ctx = zip_context.ZipContext(io.BytesIO(data))
+                out = ("returned", None)
+            except Exception as e:  # noqa
+                out = ("raised", type(e).__name__)
+            left = [z for z in made if z.fp is not None]
+            bad = None
+            if bomb and (out != ("raised", "ExtractionZipBombError") or left or reads):
+                bad = f"bomb member: {out}, {len(left)} container(s) open, member accesses {reads}"
+            elif not bomb and (out[0] != "returned" or len(left) != 1):
+                bad = f"{out}, {len(left)} container(s) open after construction"
+            elif not bomb:
+                try:
+                    ctx.read_bytes("content.xml")
+                    ctx.read_text("content.xml")
+                    ctx.read_xml_root("content.xml")
+                    ctx.open_stream("content.xml").close()
+                except Exception as e:  # noqa
+                    bad = f"member access through the context raised {type(e).__name__}"
+                if bad is None and [z for z in made if z.fp is not None] != left:
+                    bad = "a method of the context opened another container"
+                if bad is None:
+                    ctx.close()
+                    if [z for z in made if z.fp is not None]:
+                        bad = "close() left a container open"
+            if bad:
+                return {"target": "sharepoint2text/parsing/extractors/util/zip_context.py::ZipContext",
+                        "inputs": {"document": label, "size": len(data)}, "expected": "one accepted open container kept, none on failure, "
+                        "closed by close(); no member access on a container with a bomb member", "observed": bad}
+    finally:
+        zipfile.ZipFile.__init__, zipfile.ZipFile.read, zipfile.ZipFile.open = real_init, real_read, real_open
+    return None
+
+
 def _family(req):
     """Which native search answers an obligation: "order" (typestate / policy: event monitor), "propagate" (exception type at
     the extractors), "predicate" (validate_zipfile and its helpers: boundary lattice), "all"."""
@@ -869,6 +957,8 @@ def _family(req):
         parts = oid.split("/")
         fq = parts[1] if len(parts) > 2 else ""
         return "propagate", {"file": fq.split("::")[0], "function": fq.split("::")[-1].split(".")[0]}
+    if any(k in oid for k in ("zip_context.py::", "zip_utils.py::", "encryption.py::")):
+        return "consumer", {}
     if "zip_bomb.py::validate_zipfile/" in oid or "zip_bomb.py::_is_directory/" in oid or "zip_bomb.py::spec/" in oid:
         return "predicate", {}
     return "all", {}
@@ -889,6 +979,17 @@ def find(req):
             r.update(reproduced=True, found_by="call sequences over recycled / re-allocated buffers")
             return r
         return {"reproduced": False, "note": "no entry point lets an earlier call on the same buffer change its decision"}
+    if fam == "consumer":
+        try:
+            r = native_consumers()
+        except Exception:  # noqa -- the scope itself does not fit this tree: the other scopes decide
+            r = None
+        if r is None:
+            r = native_order() or native_extractors() or native_sequences()
+        if r is not None:
+            r.update(reproduced=True, found_by="native scope over the consumers of the guard (open containers / member accesses recorded)")
+            return r
+        fam = "all"
     if fam in ("order", "propagate"):
         only = None
         if fam == "propagate":
